@@ -10,6 +10,9 @@ from ..core import Ctx, InfraError, Stream, digest, pmap
 from ..proto import parse_answer, run_driver
 from ..rules_common import run_witnesses
 
+# C04 owns the regenerated obligation Pta.C04.generated_wiring_agree (Generated/Wiring.lean, PtaProofs/Props/Tables.lean)
+USES_GENERATED = ("C04",)
+
 RULE = (
     "cases = project trees written to a tmpfs and scanned with get_evaluable_architecture (default options): (a) a fixed "
     "package tree with one importer file per (statement-list position chain x import form): every single position reached "
